@@ -400,6 +400,26 @@ class GVal:
             reads.append(r)
         return GVal(self.data, sym, reads)
 
+    def transposed(self, perm):
+        """np.transpose of a value: the generic positions are named after the position of their axis from the right, so the
+        position variables (in index symbols, atoms and recorded reads) are renamed along with the axes"""
+        perm = tuple(int(x) for x in perm)
+        nd = self.data.ndim
+        if sorted(perm) != list(range(nd)):
+            raise alg.Undecided("transpose of a value with an invalid permutation")
+        ren = {}
+        for newpos, oldpos in enumerate(perm):
+            if (nd - oldpos) in self.sym and nd - oldpos != nd - newpos:
+                ren["p%d" % (nd - oldpos)] = "q%d" % (nd - newpos)  # two-step renaming avoids clashes
+        data = _np.transpose(self.data, perm)
+        sym = {(nd - perm.index(nd - slot)): axs for slot, axs in self.sym.items()}
+        reads = self.reads
+        if ren:
+            data, reads = _rename_positions(data, reads, ren)
+            fin = {v: "p" + v[1:] for v in ren.values()}
+            data, reads = _rename_positions(data, reads, fin)
+        return GVal(data, sym, reads)
+
     def map(self, f):
         out = _np.empty(self.data.shape, dtype=object)
         of, df = out.reshape(-1), self.data.reshape(-1)
@@ -408,46 +428,102 @@ class GVal:
         return GVal(out, self.sym, self.reads)
 
 
-def _index(idx, dims, tail_shape):
-    """interpret a basic index on an array whose leading axes have symbolic sizes `dims` (Affs) followed by the concrete
-    `tail_shape`.  Returns (points: per leading source axis either Aff (integer index) or None, axes: result axes left to
-    right as ('sym', source axis, SymAxis) / ('one', source axis, Aff lo) / ('tail', n) / ('new',))"""
+def _rename_positions(data, reads, ren):
+    """rename generic-position variables (ren: old name -> new name) in an object array of symbolic values - including inside
+    the indices of the table atoms they mention - and in recorded read events"""
+    from . import subst
+
+    C = CTX[0]
+    Cx = alg.ctx()
+
+    def raff(a):
+        return Aff({ren.get(k, k): v for k, v in a.t.items()}, a.c)
+
+    senv = {}
+    for old, new in ren.items():
+        if old in Cx.byname:
+            senv[Cx.byname[old]] = S.expand(S.Sym.symbol(new, "real"))
+    for key, (symb, aidx, atail) in list(C.atoms.items()):
+        if any(nm in ren for e in aidx for nm in e.t):
+            newatom = C.named_atom(key[0], *(tuple(raff(e) for e in aidx) + (atail,)))
+            vs = S.expand(symb)
+            (mono,) = vs.n.keys()
+            ((sidx, _e),) = Cx.items(mono)
+            senv[sidx] = S.expand(newatom)
+    out = _np.empty(data.shape, dtype=object)
+    of, df = out.reshape(-1), data.reshape(-1)
+    for i in range(df.size):
+        of[i] = S.Sym.of_value(subst.substitute_all(S.expand(S.lift(df[i])), senv)) if senv else df[i]
+    nreads = []
+    for r in reads:
+        r = dict(r)
+        r["idx"] = tuple(raff(e) for e in r["idx"])
+        r["cons"] = [(k, raff(a), raff(b)) for k, a, b in r["cons"]]
+        r["bounds"] = [(raff(e), D) for e, D in r["bounds"]]
+        nreads.append(r)
+    return out, nreads
+
+
+def _index(idx, dims, tail_shape, layout=None):
+    """interpret an index on a table.  `layout` lists, for every actual axis, ('s', k) - the k-th axis of symbolic extent
+    dims[k] - or ('c', k) - the k-th concrete axis of length tail_shape[k]; by default the symbolic axes come first.
+    Returns (points {k: Aff} for integer-indexed symbolic axes, tpoints {k: int} for integer-indexed concrete axes,
+    axes: the result axes left to right as ('sym', k, SymAxis) / ('one', k, Aff) / ('tail', n, k) / ('new',) / ('adv', n),
+    adv: None or (broadcast shape, [(kind, k, index array broadcast to that shape)]) for integer-ARRAY indices, which must be
+    the leading indices - numpy then puts the broadcast axes first)."""
+    if layout is None:
+        layout = [("s", k) for k in range(len(dims))] + [("c", k) for k in range(len(tail_shape))]
     if not isinstance(idx, tuple):
         idx = (idx,)
-    nsrc = len(dims) + len(tail_shape)
+    nsrc = len(layout)
     given = sum(1 for x in idx if x is not None)
     if given < nsrc:
         idx = idx + (slice(None),) * (nsrc - given)  # missing trailing indices mean ':'
     elif given > nsrc:
         raise alg.Undecided("too many indices (got %r)" % (idx,))
-    if any(isinstance(x, _np.ndarray) for x in idx):
-        raise StageEnd("a table is indexed with integer arrays (selection of angular-momentum components): beyond the generic-element fragment")
-    out, points = [], {}
+    out, points, tpoints = [], {}, {}
+    advs = []
     ax = 0
+    seen_basic = False
     for x in idx:
         if x is None:
             out.append(("new",))
+            seen_basic = True
             continue
-        if ax < len(dims):
-            D = dims[ax]
+        kind, k = layout[ax]
+        if isinstance(x, _np.ndarray):
+            if seen_basic:
+                raise StageEnd("integer-array indices that are not the leading indices: beyond the generic-element fragment")
+            advs.append((kind, k, x))
+        elif kind == "s":
+            seen_basic = True
+            D = dims[k]
             if isinstance(x, slice):
                 lo, ubs = _norm_slice(x, D)
                 if D.is_const() and D.c == 1 and lo.is_const() and lo.c == 0:
-                    out.append(("one", ax, Aff.of(0)))  # the only element of a length-1 axis
+                    out.append(("one", k, Aff.of(0)))  # the only element of a length-1 axis
                 elif lo.is_const() and isinstance(x.stop, (int, _np.integer)) and x.stop >= 0 and x.stop - lo.c == 1 and lo.c == 0:
-                    out.append(("one", ax, lo))  # 0:1 on an axis of size >= 1: exactly one element
+                    out.append(("one", k, lo))  # 0:1 on an axis of size >= 1: exactly one element
                 else:
-                    out.append(("sym", ax, SymAxis(lo, ubs)))
+                    out.append(("sym", k, SymAxis(lo, ubs)))
             else:
-                points[ax] = Aff.of(x)
+                points[k] = Aff.of(x)
         else:
-            n = tail_shape[ax - len(dims)]
+            seen_basic = True
+            n = tail_shape[k]
             if isinstance(x, slice) and x == slice(None):
-                out.append(("tail", n, ax - len(dims)))
+                out.append(("tail", n, k))
+            elif isinstance(x, (int, _np.integer)) and 0 <= int(x) < n:
+                tpoints[k] = int(x)
             else:
-                raise alg.Undecided("only ':' is supported on the concrete trailing axes")
+                raise alg.Undecided("only ':' and an in-range integer are supported on a concrete axis (got %r)" % (x,))
         ax += 1
-    return points, out
+    adv = None
+    if advs:
+        bshape = _np.broadcast_shapes(*[a.shape for _k, _i, a in advs])
+        adv = (tuple(bshape), [(kind, k, _np.broadcast_to(a, bshape)) for kind, k, a in advs])
+        out = [("adv", n) for n in bshape] + out
+    return points, tpoints, out, adv
 
 
 def loop_cons(loops):
@@ -463,47 +539,54 @@ def _cons_now(C):
 
 
 class GArray:
-    """the table being filled: leading symbolic extents, concrete trailing shape"""
+    """a table being filled: axes of symbolic extent and axes of concrete length, in any order"""
 
     __array_ufunc__ = None
 
-    def __init__(self, dims, tail):
+    def __init__(self, dims, tail, layout=None):
         self.dims, self.tail = [Aff.of(d) for d in dims], tuple(int(t) for t in tail)
+        self.layout = list(layout) if layout is not None else [("s", k) for k in range(len(self.dims))] + [("c", k) for k in range(len(self.tail))]
         C = CTX[0]
         self.tid = C.ntab if C is not None else 0
         if C is not None:
             C.ntab += 1
             C.tables = getattr(C, "tables", []) + [list(self.dims)]
 
+    @staticmethod
+    def from_shape(shape):
+        dims, tail, layout = [], [], []
+        for x in shape:
+            if isinstance(x, Aff):
+                layout.append(("s", len(dims)))
+                dims.append(x)
+            else:
+                layout.append(("c", len(tail)))
+                tail.append(int(x))
+        return GArray(dims, tail, layout)
+
     @property
     def shape(self):
-        return tuple(self.dims) + self.tail
+        return tuple(self.dims[k] if kind == "s" else self.tail[k] for kind, k in self.layout)
 
     def transposed(self, perm):
-        """np.transpose of the table: a second name for the same table with its leading axes in another order"""
+        """np.transpose of the table: a second name for the same table with its axes in another order"""
         perm = tuple(int(x) for x in perm)
-        nl = len(self.dims)
-        if sorted(perm[:nl]) != list(range(nl)) or list(perm[nl:]) != list(range(nl, nl + len(self.tail))):
-            raise alg.Undecided("transpose that mixes symbolic and concrete axes")
+        if sorted(perm) != list(range(len(self.layout))):
+            raise alg.Undecided("transpose with an invalid permutation %r" % (perm,))
         t = object.__new__(GArray)
-        t.dims, t.tail, t.tid = [self.dims[a] for a in perm[:nl]], self.tail, self.tid
-        t.perm = [(self.perm[a] if hasattr(self, "perm") else a) for a in perm[:nl]]
+        t.dims, t.tail, t.tid = self.dims, self.tail, self.tid
+        t.layout = [self.layout[a] for a in perm]
         return t
 
     def _view(self, idx, reading):
         C = CTX[0]
-        points, axes = _index(idx, self.dims, self.tail)
-        if hasattr(self, "perm"):  # indices were given in the transposed order: map the leading axes back
-            points = {self.perm[a]: e for a, e in points.items()}
-            axes = [((axd[0], self.perm[axd[1]]) + tuple(axd[2:])) if axd[0] in ("sym", "one") else axd for axd in axes]
+        points, tpoints, axes, adv = _index(idx, self.dims, self.tail, self.layout)
         n = len(axes)
         shape = []
         cons = _cons_now(C)
         elem = dict(points)
         sym = {}
-        bounds = []  # in-bounds obligations for integer indices
-        for a, e in points.items():
-            bounds.append((e, self.dims[a]))
+        bounds = [(e, self.dims[a]) for a, e in points.items()]  # in-range obligations for integer indices
         for pos, axd in enumerate(axes):
             slot = n - pos
             if axd[0] == "sym":
@@ -517,22 +600,44 @@ class GArray:
             elif axd[0] == "one":
                 elem[axd[1]] = axd[2]
                 shape.append(1)
-            elif axd[0] == "tail":
+            elif axd[0] in ("tail", "adv"):
                 shape.append(axd[1])
             else:
                 shape.append(1)
-        eidx = tuple(elem[a] for a in range(len(self.dims)))
-        if hasattr(self, "perm"):
-            bounds = [(e, D) for (a_, e), D in zip(sorted(points.items()), [self.dims[self.perm.index(a_)] for a_, _e in sorted(points.items())])]
-        tail_axes = [pos for pos, axd in enumerate(axes) if axd[0] == "tail"]
+        kept = [(pos, axd[2]) for pos, axd in enumerate(axes) if axd[0] == "tail"]  # (result position, concrete axis k)
+        nadv = len(adv[0]) if adv else 0
         data = _np.empty(shape, dtype=object)
-        for tpos in itertools.product(*[range(t) for t in self.tail]):
-            full = [0] * n
-            for pos, tp in zip(tail_axes, tpos):
-                full[pos] = tp
-            data[tuple(full)] = C.atom(*(eidx + (tpos,))) if reading else None
-        ev = dict(kind="read" if reading else "write", idx=eidx, cons=cons, bounds=bounds, loops=list(C.loops), seq=None, tid=self.tid)
-        return data, sym, ev
+        events = []
+        for apos in itertools.product(*[range(m) for m in (adv[0] if adv else ())]):
+            el, tp = dict(elem), dict(tpoints)
+            if adv:
+                for kind, k, arr in adv[1]:
+                    v = arr[apos]
+                    if kind == "s":
+                        el[k] = Aff.of(v)
+                        bounds_here = [(el[k], self.dims[k])]
+                    else:
+                        if not isinstance(v, (int, _np.integer)) or not 0 <= int(v) < self.tail[k]:
+                            raise alg.Undecided("a concrete axis is indexed with %r" % (v,))
+                        tp[k] = int(v)
+            if any(k not in el for k in range(len(self.dims))):
+                raise alg.Undecided("an axis of the table is left without an index")
+            eidx = tuple(el[k] for k in range(len(self.dims)))
+            for kpos in itertools.product(*[range(self.tail[k]) for _pos, k in kept]):
+                tfull = dict(tp)
+                full = [0] * n
+                for q, a_ in enumerate(apos):
+                    full[q] = a_
+                for (pos, k), kp in zip(kept, kpos):
+                    tfull[k] = kp
+                    full[pos] = kp
+                tpos = tuple(tfull[k] for k in range(len(self.tail)))
+                data[tuple(full)] = C.atom(*(eidx + (tpos,))) if reading else None
+            b2 = list(bounds)
+            if adv:
+                b2 += [(el[k], self.dims[k]) for kind, k, _arr in adv[1] if kind == "s"]
+            events.append(dict(kind="read" if reading else "write", idx=eidx, cons=list(cons), bounds=b2, loops=list(C.loops), seq=None, tid=self.tid))
+        return data, sym, events
 
     def __getitem__(self, idx):
         C = CTX[0]
@@ -540,14 +645,14 @@ class GArray:
         if self.tid:
             C.atom = lambda *a: C.named_atom("S%d" % self.tid, *a)
         try:
-            data, sym, ev = self._view(idx, True)
+            data, sym, evs = self._view(idx, True)
         finally:
             C.atom = real_atom
-        return GVal(data, sym, [ev])
+        return GVal(data, sym, evs)
 
     # arithmetic on the whole table = arithmetic on a full slice of it (a read of every element)
     def _all(self):
-        return self[(slice(None),) * (len(self.dims) + len(self.tail))]
+        return self[(slice(None),) * len(self.layout)]
 
     def __mul__(self, o):
         return self._all() * o
@@ -569,7 +674,10 @@ class GArray:
 
     def __setitem__(self, idx, val):
         C = CTX[0]
-        data, sym, ev = self._view(idx, False)
+        data, sym, evs = self._view(idx, False)
+        if len(evs) != 1:
+            raise alg.Undecided("assignment through integer-array indices")
+        ev = evs[0]
         val = GVal.lift(val)
         C.seq += 1
         ev["seq"] = C.seq
@@ -608,6 +716,7 @@ class GSpecTable(GArray):
 
     def __init__(self, dims, tail, name):
         self.dims, self.tail = [Aff.of(d) for d in dims], tuple(int(t) for t in tail)
+        self.layout = [("s", k) for k in range(len(self.dims))] + [("c", k) for k in range(len(self.tail))]
         self.tid = -1
         self.name = name
 
@@ -616,7 +725,7 @@ class GSpecTable(GArray):
         real_atom = C.atom
         C.atom = lambda *a: C.named_atom(self.name, *a)
         try:
-            data, sym, _ev = self._view(idx, True)
+            data, sym, _evs = self._view(idx, True)
         finally:
             C.atom = real_atom
         return GVal(data, sym, [])
@@ -673,7 +782,9 @@ class GIota:
         if self.ndim == 1 and all(x is None or x == slice(None) for x in idx) and sum(1 for x in idx if x is not None) == 1:
             return GIota(self.D, axis=[k for k, x in enumerate(idx) if x is not None][0], ndim=len(idx), offset=self.offset)
         dims = [self.D if a == self.axis else Aff.of(1) for a in range(self.ndim)]
-        points, axes = _index(idx, dims, ())
+        points, _tp, axes, adv = _index(idx, dims, ())
+        if adv:
+            raise alg.Undecided("integer-array index on an index array")
         n = len(axes)
         val, sym, shape = None, {}, []
         if self.axis in points:
@@ -704,8 +815,7 @@ class GNp:
 
     def zeros(self, shape, *a, **k):
         if isinstance(shape, tuple) and any(isinstance(s, Aff) for s in shape):
-            nd = max(i for i, s in enumerate(shape) if isinstance(s, Aff)) + 1
-            return GArray(shape[:nd], shape[nd:])
+            return GArray.from_shape(shape)
         return self._p.zeros(shape, *a, **k)
 
     def tensordot(self, a, b, axes=2):
@@ -729,7 +839,7 @@ class GNp:
         return self._p.sqrt(x, *a, **k)
 
     def transpose(self, x, axes=None):
-        if isinstance(x, GArray):
+        if isinstance(x, (GArray, GVal)):
             return x.transposed(axes)
         return self._p.transpose(x, axes)
 
